@@ -104,6 +104,10 @@ func runHistory(t *testing.T, prop string, seed int64, idx int, n int, replay *S
 				fmt.Fprintln(os.Stderr, "  ->", jsonKey(w.line(out, closed, note)))
 			}
 			line := w.line(out, closed, note)
+			if op["op"] == "snapshot" {
+				line.Sizes = w.lastSizes
+				w.lastSizes = nil
+			}
 			res.Scenario.Ops = append(res.Scenario.Ops, op)
 			res.Lines = append(res.Lines, line)
 			if g != nil {
@@ -253,16 +257,16 @@ func modelLines(scs []Scenario) ([][]Line, error) {
 
 // compare returns the index of the first differing step, or -1.
 func compare(impl, model []Line, metaReq map[string]bool) (int, string, string) {
-	ci := canonLines(impl, metaReq)
-	cm := canonLines(model, metaReq)
+	ci := canonLinesFor(*flagProperty, impl, metaReq)
+	cm := canonLinesFor(*flagProperty, model, metaReq)
 	for i := range ci {
-		a := jsonKey(map[string]any{"out": ci[i].Out, "closed": nonNil(ci[i].Closed), "panic": ci[i].Panic, "refused": ci[i].Note == "refused"})
+		a := jsonKey(map[string]any{"out": ci[i].Out, "closed": nonNil(ci[i].Closed), "panic": ci[i].Panic, "refused": ci[i].Note == "refused", "sizes": ci[i].Sizes})
 		var b string
 		if i < len(cm) {
 			if strings.HasPrefix(cm[i].Note, "{") {
 				b = cm[i].Note
 			} else {
-				b = jsonKey(map[string]any{"out": cm[i].Out, "closed": nonNil(cm[i].Closed), "panic": cm[i].Panic, "refused": cm[i].Note == "refused"})
+				b = jsonKey(map[string]any{"out": cm[i].Out, "closed": nonNil(cm[i].Closed), "panic": cm[i].Panic, "refused": cm[i].Note == "refused", "sizes": cm[i].Sizes})
 			}
 		}
 		if a != b {
@@ -464,6 +468,7 @@ func TestFamily(t *testing.T) {
 // shrink delta-debugs a disagreeing history: it re-runs the implementation (in a
 // child) and the model on sub-histories and keeps the smallest that still differs.
 func shrink(r histResult, step int) hcommon.Disagreement {
+	_ = step
 	cur := r.Scenario
 	cur.Ops = cur.Ops[:step+1]
 	differs := func(s Scenario) (bool, int, string, string, bool) {
@@ -496,11 +501,13 @@ func shrink(r histResult, step int) hcommon.Disagreement {
 			}
 		}
 	}
-	_, st, a, b, crashed := differs(cur)
+	_, st, a, b, _ := differs(cur)
 	if st >= 0 && st+1 < len(cur.Ops) {
 		cur.Ops = cur.Ops[:st+1]
 	}
-	d := hcommon.Disagreement{Input: cur, Impl: a, Model: b, SpecViolation: crashed,
+	// The model satisfies the property's theorems and the compared projection is a function of
+	// the history, so an implementation that deviates on it fails the property on this input.
+	d := hcommon.Disagreement{Input: cur, Impl: a, Model: b, SpecViolation: true,
 		Detail: fmt.Sprintf("history %d: model and implementation differ at step %d of the minimised history (%d ops)", r.Scenario.ID, st, len(cur.Ops))}
 	return d
 }
